@@ -138,6 +138,11 @@ func randTagFor(rng *rand.Rand, ft reflect.Type, sc *world.Scenario, mix TagMix)
 		}
 		return "wire", "absent-name" + args
 	}
+	if rng.Intn(7) == 0 {
+		// the name comes from a placeholder whose key is not configured and whose default is empty: the
+		// point is then processed as if written with an empty name, i.e. it is a by-type point
+		return "wire", "${nosuchkey.name:}" + args
+	}
 	return "wire", args
 }
 
